@@ -2278,7 +2278,7 @@ pub fn c20(_thorough: bool, stats: &mut Stats) -> Vec<Failure> {
     }
     for (i, name) in crate::cfg::CP_NAMES.iter().enumerate() {
         for fv in case_variants(name) {
-            let ec = if i < 4 { Some(("call_parentheses", name.to_string())) } else { None };
+            let ec = Some(("call_parentheses", name.to_string()));
             vals.push(V { opt: "call_parentheses", toml: format!("call_parentheses = \"{}\"", name), flag: vec!["--call-parentheses".into(), fv], ec, cfg: Cfg { cp: i as u8, ..d } });
         }
     }
